@@ -622,6 +622,54 @@ Proof.
   simpl. apply Nat.leb_le. apply H. lia.
 Qed.
 
+(* what "no lost wake-up, item by item" buys: WITHOUT any call of f returning or adding anything, the runners that
+   are not inside f can take up queued items until the queue is empty or all n runners are inside f -- up to n items
+   are in progress together, so calls of f that wait for their siblings to be running (with no more such items than
+   runners) cannot hang Do.  The schedule consists of pick steps only: nothing is added, nothing finishes. *)
+Theorem queued_items_get_runners s : reachable s ->
+  exists sch s', run sch s = Some s' /\ (todo s' = [] \/ cnt is_run (pcs s') = n) /\
+    added s' = added s /\ finished s' = finished s /\ length sch + length (todo s') = length (todo s) /\
+    cnt is_run (pcs s') = cnt is_run (pcs s) + length sch.
+Proof.
+  remember (length (todo s)) as m eqn:Em. revert s Em.
+  induction m as [|m IH]; intros s Em Hr.
+  - exists [], s. simpl. repeat split; auto. left. destruct (todo s); [reflexivity|discriminate].
+  - destruct (reachable_Inv s Hr) as [HC HR]. pose proof (reachable_InvW s Hr) as HW. unfold InvW in HW.
+    destruct HC as [Hlen Hw Hpl Hnd Hst Hp1 Hp2].
+    pose proof (cnt_partition (pcs s)) as Hpart.
+    assert (Htd : todo s <> []) by (intros E; rewrite E in Em; discriminate).
+    assert (Hd0 : cnt is_done (pcs s) = 0).
+    { destruct (cnt is_done (pcs s)) eqn:Ed; auto. destruct Hp2 as (Ht & _); [lia|contradiction]. }
+    destruct (Nat.eq_dec (cnt is_run (pcs s)) n) as [Hall|Hnot].
+    { exists [], s. simpl. repeat split; auto. }
+    assert (Hcoming : 0 < cnt is_top (pcs s) + cnt is_woken (pcs s)).
+    { destruct (cnt is_parked (pcs s)) eqn:Epk; [lia|]. assert (0 < S n0) as Hp by lia. specialize (HW Hp). lia. }
+    assert (Hstep : exists t s1, step s (t, 0) = Some s1 /\ todo s1 = swap_remove 0 (todo s) /\ added s1 = added s /\
+              finished s1 = finished s /\ cnt is_run (pcs s1) = S (cnt is_run (pcs s))).
+    { assert (Hpick : forall t p w0, nth_error (pcs s) t = Some p -> (p = Top \/ p = Woken) ->
+                wait_or_pick n t 0 s w0 = Some (mkState (set_nth t (Run (nth 0 (todo s) 0) 0) (pcs s)) (swap_remove 0 (todo s)) (added s) w0
+                                                         (nth 0 (todo s) 0 :: started s) (finished s))).
+      { intros t p w0 Hn Hp. unfold wait_or_pick. destruct (todo s) as [|x r] eqn:Et; [contradiction|]. reflexivity. }
+      destruct (cnt is_top (pcs s)) eqn:Etop.
+      - destruct (cnt_exists is_woken (pcs s)) as (t & p & Hn & Hp); [lia|]. destruct p; try discriminate.
+        exists t. unfold ParWork.step. rewrite Hn. destruct (waiting s) as [|w0] eqn:Ewt.
+        + pose proof (cnt_ge1 is_woken _ _ _ Hn eq_refl). lia.
+        + rewrite (Hpick t Woken w0 Hn (or_intror eq_refl)). eexists; split; [reflexivity|]. cbn [todo added finished pcs].
+          repeat split; auto. pose proof (cnt_set_nth is_run _ (Run (nth 0 (todo s) 0) 0) _ _ Hn) as Hc. simpl in Hc. lia.
+      - destruct (cnt_exists is_top (pcs s)) as (t & p & Hn & Hp); [lia|]. destruct p; try discriminate.
+        exists t. unfold ParWork.step. rewrite Hn.
+        rewrite (Hpick t Top (waiting s) Hn (or_introl eq_refl)). eexists; split; [reflexivity|]. cbn [todo added finished pcs].
+        repeat split; auto. pose proof (cnt_set_nth is_run _ (Run (nth 0 (todo s) 0) 0) _ _ Hn) as Hc. simpl in Hc. lia. }
+    destruct Hstep as (t & s1 & Hs1 & Ht1 & Ha1 & Hf1 & Hr1).
+    pose proof (swap_remove_length 0 (todo s) Htd) as Hl.
+    destruct (IH s1) as (sch & s' & Hrun & Hgoal & Ha & Hf & Hlen' & Hrn).
+    { rewrite Ht1. lia. }
+    { eapply reach_step; eauto. }
+    exists ((t, 0) :: sch), s'. cbn [ParWork.run]. rewrite Hs1. repeat split; auto; try congruence.
+    + simpl. lia.
+    + simpl. lia.
+Qed.
+
 (* [enabled] (used by the runner to compare with the real scheduler's runnable set) is exact *)
 Theorem enabled_spec s t : reachable s -> (enabled s t = true <-> exists c s', step s (t, c) = Some s').
 Proof.
